@@ -156,34 +156,52 @@ func cmdCheck(args []string) int {
 	done := map[string]bool{}
 	work := append([]*FnSpec{}, specs...)
 	undecided := []string{}
+	// rounds: the functions of one round are executed symbolically in parallel (each has its own solver context and
+	// state; the contract database and the SSA program are only read); the contracts they use form the next round
 	for len(work) > 0 {
-		s := work[0]
-		work = work[1:]
-		if done[s.fullName()] || s.Trusted {
-			continue
+		var batch []*FnSpec
+		for _, s := range work {
+			if done[s.fullName()] || s.Trusted {
+				continue
+			}
+			done[s.fullName()] = true
+			if *only != "" && !strings.Contains(s.Key, *only) {
+				continue
+			}
+			if s.Kind == "fn" || s.Kind == "lemma" {
+				batch = append(batch, s)
+			}
 		}
-		done[s.fullName()] = true
-		if *only != "" && !strings.Contains(s.Key, *only) {
-			continue
+		work = nil
+		frs := make([]*fnResult, len(batch))
+		var wg sync.WaitGroup
+		sem := make(chan struct{}, execWorkers())
+		for i, s := range batch {
+			wg.Add(1)
+			go func(i int, s *FnSpec) {
+				defer wg.Done()
+				sem <- struct{}{}
+				defer func() { <-sem }()
+				if s.Kind == "fn" {
+					frs[i] = run.verifyFn(s)
+				} else {
+					frs[i] = run.verifyLemma(s)
+				}
+			}(i, s)
 		}
-		var fr *fnResult
-		switch s.Kind {
-		case "fn":
-			fr = run.verifyFn(s)
-		case "lemma":
-			fr = run.verifyLemma(s)
-		default:
-			continue
-		}
-		run.results = append(run.results, fr)
-		if fr.err != nil {
-			undecided = append(undecided, fmt.Sprintf("%s: %v", s.fullName(), fr.err))
-			continue
-		}
-		for _, u := range fr.used {
-			if us := run.findSpecByName(u); us != nil && us.Kind == "fn" && !us.Trusted && !done[us.fullName()] {
-				if run.ld.Pkgs[us.Pkg] != nil {
-					work = append(work, us)
+		wg.Wait()
+		for i, fr := range frs {
+			s := batch[i]
+			run.results = append(run.results, fr)
+			if fr.err != nil {
+				undecided = append(undecided, fmt.Sprintf("%s: %v", s.fullName(), fr.err))
+				continue
+			}
+			for _, u := range fr.used {
+				if us := run.findSpecByName(u); us != nil && us.Kind == "fn" && !us.Trusted && !done[us.fullName()] {
+					if run.ld.Pkgs[us.Pkg] != nil {
+						work = append(work, us)
+					}
 				}
 			}
 		}
@@ -291,7 +309,9 @@ func (run *checkRun) verifyLemma(s *FnSpec) *fnResult {
 				body = &SExpr{Kind: "binop", Op: "==>", Args: []*SExpr{conjExpr(lemClauses(s.Requires)), body}}
 			}
 			dn := "lemma$ih$" + s.Key
+			defsMu.Lock()
 			ex.cf.Defs[dn] = &SpecDef{Name: dn, Kind: "pred", Params: s.Params, Body: body}
+			defsMu.Unlock()
 			var args []*SExpr
 			for _, p := range s.Params {
 				if p == s.Induct {
